@@ -1,6 +1,7 @@
 #!/usr/bin/env python3
 """seeded/results.json and the table of DESIGN.md §10 from the matrix output(s).
-usage: seed_report.py <matrix.jsonl> [<own-only.jsonl> ...]   (later files override earlier ones per (seed, check))"""
+usage: seed_report.py <matrix.jsonl> [<own-only.jsonl> ...]   (later files override earlier ones per (seed, check); the committed
+seeded/results.json is the base, so that columns of earlier full matrices survive; seeds whose directory is gone are dropped)"""
 import json
 import os
 import re
@@ -8,6 +9,12 @@ import sys
 
 HERE = os.path.dirname(os.path.dirname(os.path.abspath(__file__)))
 res = {}
+try:
+    for k, e in json.load(open(os.path.join(HERE, "seeded", "results.json"))).items():
+        if os.path.isdir(os.path.join(HERE, "seeded", k)):
+            res[k] = {"property": e["property"], "summary": e.get("summary"), "checks": e.get("checks", {})}
+except (OSError, ValueError):
+    pass
 for path in sys.argv[1:]:
     for l in open(path):
         r = json.loads(l)
@@ -15,6 +22,8 @@ for path in sys.argv[1:]:
             continue
         pid, n = r["seed"].replace("seed_", "").split("/")
         key = f"{pid}-{n}"
+        if not os.path.isdir(os.path.join(HERE, "seeded", key)):
+            continue
         e = res.setdefault(key, {"property": r.get("property") or pid, "summary": r.get("summary"), "checks": {}})
         for c in r["results"]:
             e["checks"][c["check"]] = {"exit": c["exit"], "no_failing_input": c["nofail"], "wall_s": c["wall"],
